@@ -114,20 +114,20 @@ type unbalanced struct {
 
 // LFacts is the result of the walk.
 type LFacts struct {
-	P        *Prog
-	At       map[ssa.Instruction][]LSite // library instructions of interest → contexts
-	UserCB   map[ssa.Instruction][]LSite // invocations of a root's function-typed parameter
-	Acq      []acqEdge
-	Unbal    []unbalanced
-	Ctxs     []*LCtx
-	Roots    []*LCtx
-	memo     map[string]*LCtx
-	walkCnt  map[*ssa.Function]int
-	mayLatch map[*ssa.Function]bool
-	NCtx     int
-	accessor map[*types.Named]bool
+	P         *Prog
+	At        map[ssa.Instruction][]LSite // library instructions of interest → contexts
+	UserCB    map[ssa.Instruction][]LSite // invocations of a root's function-typed parameter
+	Acq       []acqEdge
+	Unbal     []unbalanced
+	Ctxs      []*LCtx
+	Roots     []*LCtx
+	memo      map[string]*LCtx
+	walkCnt   map[*ssa.Function]int
+	mayLatch  map[*ssa.Function]bool
+	NCtx      int
+	accessor  map[*types.Named]bool
 	roleSplit map[string]map[string]string
-	Unres    map[ssa.Instruction]bool // dynamic calls nothing resolved
+	Unres     map[ssa.Instruction]bool // dynamic calls nothing resolved
 }
 
 // walkable: bodies the walk descends into. The standard library and the compression/stream
